@@ -503,6 +503,54 @@ pub fn check_step(cfg: &SpecCfg, obs: &StepObs, focus: &Focus) -> (Vec<Finding>,
                     detail: format!("actor slot {}: {}", obs_actor, msg),
                 });
             }
+            // what is announced is in effect afterwards ("each accepted change is applied,
+            // announced"): independent of the Spec's own idea of the next state
+            if is_member {
+                let post_m = M::from_snapshot(&obs.post);
+                if let Some(ch) = post_m.chans.get(&ann.chan) {
+                    for l in &mode_lines {
+                        if let Some(atoms) = spec::parse_mode_atoms(&l.params[1.min(l.params.len())..]) {
+                            for (plus, letter, arg) in atoms {
+                                let ok = match letter {
+                                    'q' | 'a' | 'o' | 'h' | 'v' => match arg.as_ref().and_then(|n| ch.members.get(n)) {
+                                        Some(mm) => mm.has(letter) == plus,
+                                        None => !plus, // the member left in the same step
+                                    },
+                                    'b' => arg.as_ref().map_or(true, |a| ch.ban.contains(a) == plus),
+                                    'e' => arg.as_ref().map_or(true, |a| ch.except.contains(a) == plus),
+                                    'I' => arg.as_ref().map_or(true, |a| ch.invex.contains(a) == plus),
+                                    'k' => {
+                                        if plus {
+                                            ch.key == arg
+                                        } else {
+                                            ch.key.is_none()
+                                        }
+                                    }
+                                    'l' => {
+                                        if plus {
+                                            ch.limit == arg.as_ref().and_then(|a| a.parse().ok())
+                                        } else {
+                                            ch.limit.is_none()
+                                        }
+                                    }
+                                    f @ ('i' | 'm' | 's' | 't' | 'n') => ch.flag(f) == plus,
+                                    _ => true,
+                                };
+                                if !ok {
+                                    // a later atom of the same line may legitimately undo an earlier one
+                                    let undone = mode_lines.iter().any(|l2| spec::parse_mode_atoms(&l2.params[1.min(l2.params.len())..]).map_or(false, |a2| a2.iter().filter(|x| x.1 == letter && (x.2 == arg || matches!(letter, 'k' | 'l' | 'i' | 'm' | 's' | 't' | 'n'))).count() > 1));
+                                    if !undone {
+                                        out.push(Finding {
+                                            sig: format!("{}:announced-not-applied", verb),
+                                            detail: format!("MODE {} announced {}{} {:?} but afterwards the channel does not show it (key {:?}, limit {:?}, flags i={} m={} s={} t={} n={})", ann.chan, if plus { '+' } else { '-' }, letter, arg, ch.key, ch.limit, ch.fi, ch.fm, ch.fs, ch.ft, ch.fnn),
+                                        });
+                                    }
+                                }
+                            }
+                        }
+                    }
+                }
+            }
         }
         if let Some((src, nick, set, unset)) = &exp.user_mode_announce {
             if let Err(msg) = check_user_mode_echo(src, nick, set, unset, &mode_lines) {
